@@ -77,6 +77,15 @@ TV_NOTE = ("Trusted: TLC and the CommunityModules overrides; the harness encoder
 NOT_APPLICABLE = {}
 
 PROPS = {
+    "C03": dict(level="model_checking", nontrivial=nt_c03, cover=True, cover_files=["internal/sort/sorter.go"],
+                text="Every Sort call of the generated scenarios (row counts across the sorter's regimes 0..14, 39..42, 97, 300, up to 5000; tie density from "
+                     "all-equal to all-distinct; 1..3 keys with Reverse/NullLast over all column types; quicksort-killer inputs built at run time by McIlroy's "
+                     "adversary against the repository's own internal/sort) is executed on the real library and TLC checks SortPost (spec/Rel.tla): the "
+                     "result is a permutation of whole input rows and consecutive rows never decrease under the lexicographic key order.",
+                note=TV_NOTE + " Statement coverage of internal/sort (go build -cover) is reported as coverage, it never decides.",
+                technique="TLA+ specification (Rel.tla SortPost) + TLC trace validation of harness executions",
+                rule="random frames x order lists, plus adversarial (antiquicksort) int columns; non-trivial = more than 12 rows (beyond insertion sort); "
+                     "distinct by (orders, result digest)"),
     "C02": dict(level="model_checking", nontrivial=nt_c02,
                 text="Every Filter call of the generated scenarios (random clause trees over all comparators x constant / list / column / none / predicate "
                      "arguments x five column types x Inverse, on frames with arbitrary physical index) is executed on the real library and the kept rows "
